@@ -148,13 +148,9 @@ class Permute(_Hash):
         self._rounds_seen = []
         a_, b_ = cfg["rounds"].split("-")
         self._range = (int(a_), int(b_))
-        for k in range(3):
-            c.w.loop_hooks[(self.name, k)] = RoundCut(self, k) if False else None
-        # loops of permute in source order: [first full rounds, (reduce loop), partial rounds, (reduce), final full rounds, (reduce)]
         c.w.loop_hooks = {}
-        c.w.loop_hooks[(self.name, 0)] = RoundCut(self, 0)
-        c.w.loop_hooks[(self.name, 2)] = RoundCut(self, 1)
-        c.w.loop_hooks[(self.name, 4)] = RoundCut(self, 2)
+        for k in range(3):        # the three round loops are the loops of permute's own body, in order
+            c.w.loop_hooks[(self.name, "top", k)] = RoundCut(self, k)
         return ph.permute, ([c.operand("in%d" % i) for i in range(ph.t)],), {}
 
     def post(self, c, r, state):
